@@ -679,7 +679,8 @@ func (c *Checker) reportViolation(v *Violation, seen int) string {
 
 // wallClockSig: verdicts decided by the wall-clock watchdog (every other verdict is a function of the seed).
 func wallClockSig(sig string) bool {
-	return strings.HasSuffix(sig, "/hang") || strings.HasSuffix(sig, "/hang-depends-on-context") || strings.HasSuffix(sig, "/no-progress/timeout")
+	return strings.HasSuffix(sig, "/hang") || strings.HasSuffix(sig, "/hang-depends-on-context") || strings.HasSuffix(sig, "/no-progress/timeout") ||
+		strings.HasSuffix(sig, "/blocked-outside-scheduler")
 }
 
 func sanitize(s string) string {
